@@ -611,7 +611,7 @@ def open_lingua(case, scratch=None):
         d = scratch or core.scratch_dir("c20")
         path = os.path.join(d, "t.mako")
         with open(path, "wb") as f:
-            f.write(case["src"].encode(cfg["enc"]))
+            f.write((b"\xef\xbb\xbf" if cfg.get("bom") else b"") + case["src"].encode(cfg["enc"]))
         it = plugin(path, LinguaOptions())
     else:
         it = plugin("t.mako", LinguaOptions(), io.StringIO(case["src"]))
@@ -956,6 +956,15 @@ def gen_unit(unit, tier, al):
                 for arr in ("none", "imm"):
                     doc = single_doc(al, enc, cons, 1, eol, arr, "text")
                     yield dict(doc, ext="lingua", tags=tags, cfg={"name": enc + "/file", "enc": enc, "transport": "file", "enc_option": enc})
+                    # the file says itself what it is encoded in (coding comment / UTF-8 byte-order mark), the extractor is
+                    # given the file NAME only and no encoding setting
+                    nl = "\r\n" if eol == "crlf" else "\n"
+                    if enc in ("cp1251", "latin-1"):
+                        d2 = dict(doc, src="## -*- coding: %s -*-" % enc + nl + doc["src"], expect=[dict(e, line=e["line"] + 1) for e in doc["expect"]], desc=dict(doc["desc"], magic=True))
+                        yield dict(d2, ext="lingua", tags=tags, cfg={"name": enc + "/file-magic-comment", "enc": enc, "transport": "file", "enc_option": None})
+                    if enc == "utf-8":
+                        d3 = dict(doc, src="## first line" + nl + doc["src"], expect=[dict(e, line=e["line"] + 1) for e in doc["expect"]], desc=dict(doc["desc"], bom=True))
+                        yield dict(d3, ext="lingua", tags=tags, cfg={"name": "utf-8/file-bom", "enc": enc, "transport": "file", "enc_option": None, "bom": True})
     elif g == "G3":
         _, li, cont = unit
         layout = LAYOUTS[li]
